@@ -1,7 +1,9 @@
 --------------------------- MODULE TraceReprovider ---------------------------
-(* Phase T: events recorded from real Reprovide passes (Reset = configuration + key stream,
-   Batch = one ProvideMany call / one Provide call of a single-provide router, Callback = one
-   throughput report, Done = Reprovide returned) must be a behaviour of Reprovider; reading,
+(* Phase T: events recorded from real Reprovide passes (Reset = new system: configuration + key
+   stream, Pass = Reprovide called again on the same system after how = "same" (nothing),
+   "set" (SetKeyProvider(stream)) or "setnil" (SetKeyProvider(nil)), Batch = one ProvideMany
+   call / one Provide call of a single-provide router, Callback = one throughput report,
+   Done = Reprovide returned) must be a behaviour of Reprovider; reading,
    validation and loop control are silent spec steps between events.                        *)
 EXTENDS Reprovider, Integers
 
@@ -17,6 +19,7 @@ TInit == /\ l = 1 /\ cbSeen = 0
          /\ input = <<>> /\ stream = <<>> /\ cfg = [batch |-> 1, many |-> TRUE, hasThr |-> FALSE, thr |-> 0, cbStop |-> FALSE, bad |-> {}]
          /\ cids = {} /\ got = 0 /\ closed = TRUE /\ pc = "done" /\ keys = {} /\ batches = <<>>
          /\ cbOn = FALSE /\ cbCount = 0 /\ cbCalls = <<>>
+         /\ pass = 1 /\ plan = <<>> /\ lowered = FALSE /\ hist = <<>>
 
 TReset == /\ IsEvent("Reset") /\ pc = "done" /\ cbSeen = Len(cbCalls)
           /\ LET c == [batch |-> Ev.batch, many |-> Ev.many, hasThr |-> Ev.hasThr, thr |-> Ev.thr,
@@ -24,6 +27,10 @@ TReset == /\ IsEvent("Reset") /\ pc = "done" /\ cbSeen = Len(cbCalls)
              IN /\ input' = Ev.stream /\ stream' = Ev.stream /\ cfg' = c
                 /\ cids' = {} /\ got' = 0 /\ closed' = FALSE /\ pc' = "read" /\ keys' = {} /\ batches' = <<>>
                 /\ cbOn' = c.hasThr /\ cbCount' = 0 /\ cbCalls' = <<>> /\ cbSeen' = 0
+                /\ pass' = 1 /\ plan' = <<>> /\ lowered' = c.hasThr /\ hist' = <<>>
+TPass == /\ IsEvent("Pass") /\ cbSeen = Len(cbCalls)
+         /\ Ev.how \in {"same", "set", "setnil"}
+         /\ NextPassWith(Ev.how, Ev.stream) /\ cbSeen' = 0
 
 Silent == /\ cbSeen = Len(cbCalls)
           /\ (ReadOne \/ ReadClosed \/ ReadFull \/ Validate)
@@ -37,7 +44,7 @@ TCallback == /\ IsEvent("Callback") /\ cbSeen < Len(cbCalls)
 TDone == /\ IsEvent("Done") /\ pc = "done" /\ cbSeen = Len(cbCalls) /\ Ev.err = ""
          /\ UNCHANGED <<vars, cbSeen>>
 
-TNext == TReset \/ Silent \/ TBatch \/ TCallback \/ TDone
+TNext == TReset \/ TPass \/ Silent \/ TBatch \/ TCallback \/ TDone
 TSpec == TInit /\ [][TNext]_tvars
 
 TraceConstraint == TLCSet(1, IF l - 1 > TLCGet(1) THEN l - 1 ELSE TLCGet(1))
